@@ -2390,14 +2390,14 @@ class Gen:
         d = self.np.uniform(1.2e-6, 5e-6, size=a.shape) * self.np.choice([-1.0, 1.0], size=a.shape)
         return a * (1.0 + d)
 
-    def r15_session(self, param, closeness, n_steps=3, scalar_P=False):
+    def r15_session(self, param, closeness, n_steps=3, scalar_P=False, deep=True):
         """ONE channel object + solver; the steps differ from one another in ONE parameter only, by a value that
         is distinct but merely close (`closeness`: tiny / rel1e-6 / ulp / dec12).  The scenario is scaled so that
         the parameter matters (noise comparable with the received powers, SINRs of order one): for `tiny` and
         `rel1e-6` the first-principles reports of consecutive steps differ by >= 30 comparison tolerances (the
         margin is computed from first principles and recorded), otherwise the scenario is drawn again.
         `scalar_P`: one power for all users, given through the P setter (then `set_precoders(F=…)` is called
-        without a power vector)."""
+        without a power vector).  `deep` (closeness tiny): magnitudes 1e-12 … 1e-15 instead of 1e-9 … 1e-12."""
         rng = self.rng
         ext = param in ('ple', 'pe') or rng.chance(0.4)
         for _attempt in range(40):
@@ -2416,30 +2416,32 @@ class Gen:
             def mul(f, a):
                 c[f] = [enc(dec(x) * a) for x in c[f]]
             if closeness == 'tiny':
-                if param in ('noise', 'pl', 'ple'):     # -115 … -130 dB links, thermal-noise-sized noise
-                    c['pl'] = [[10.0 ** rng.uniform(-13, -11.5) for _ in range(K)] for _ in range(K)]
-                    c['ple'] = [[10.0 ** rng.uniform(-13, -11.5) for _ in c['NtE']] for _ in range(K)]
-                    c['noise'] = 10.0 ** rng.uniform(-12.5, -11.5)
+                # `deep`: two to three decades further down (also below what a key rounded to 9 decimals resolves)
+                dd = -2.5 if deep else 0.0
+                if param in ('noise', 'pl', 'ple'):     # -115 … -155 dB links, thermal-noise-sized noise
+                    c['pl'] = [[10.0 ** rng.uniform(-13 + dd, -11.5 + dd) for _ in range(K)] for _ in range(K)]
+                    c['ple'] = [[10.0 ** rng.uniform(-13 + dd, -11.5 + dd) for _ in c['NtE']] for _ in range(K)]
+                    c['noise'] = 10.0 ** rng.uniform(-12.5 + dd, -11.5 + dd)
                 elif param == 'big':                    # the path loss folded into the channel matrix
-                    e = rng.uniform(-10, -9)
+                    e = rng.uniform(-10, -9) + dd
                     c['pl'] = c['ple'] = None
                     c['big'] = enc(dec(c['big']) * 10.0 ** e)
                     c['noise'] = 10.0 ** (2 * e + rng.uniform(-0.5, 0.5))
                 elif param == 'pe':
-                    mul('F', 1e-5)
-                    mul('FJ', 1e-5)
-                    c['pe'] = 10.0 ** rng.uniform(-10.5, -9.5)
-                    c['noise'] = 10.0 ** rng.uniform(-10.5, -9.5)
+                    mul('F', 10.0 ** (-5 + dd / 2))
+                    mul('FJ', 10.0 ** (-5 + dd / 2))
+                    c['pe'] = 10.0 ** rng.uniform(-10.5 + dd, -9.5 + dd)
+                    c['noise'] = 10.0 ** rng.uniform(-10.5 + dd, -9.5 + dd)
                 elif param == 'P':
-                    c['P'] = [10.0 ** rng.uniform(-10.5, -9.5) for _ in range(K)]
-                    c['noise'] = 10.0 ** rng.uniform(-10.5, -9.5)
+                    c['P'] = [10.0 ** rng.uniform(-10.5 + dd, -9.5 + dd) for _ in range(K)]
+                    c['noise'] = 10.0 ** rng.uniform(-10.5 + dd, -9.5 + dd)
                 elif param == 'F':
-                    e = rng.uniform(-10, -9)
+                    e = rng.uniform(-10, -9) + dd
                     mul('F', 10.0 ** e)
                     mul('FJ', 10.0 ** e)
                     c['noise'] = 10.0 ** (2 * e + rng.uniform(-0.5, 0.5))
                 elif param == 'U':
-                    mul('U', 10.0 ** rng.uniform(-10, -9))
+                    mul('U', 10.0 ** (rng.uniform(-10, -9) + dd))
             elif closeness == 'rel1e-6':
                 if param == 'noise':                    # 2.4e9 against 2.4e9 + 2e4
                     a = 10.0 ** rng.uniform(4.5, 4.8)
@@ -2504,20 +2506,28 @@ class Gen:
                 'margin': min(margins) if margins else 0.0, 'scalar_P': bool(scalar_P)}
 
     # ---------------------------------------------------------------- R16: the caller's buffers, one object in two roles
-    def buffer_session(self, ext=None):
+    def buffer_session(self, ext=None, flavour=0):
         """a session whose steps all have the SAME layout, so that every buffer of the caller (channel matrix, path
-        loss, precoders, filters, powers, …) is refilled in place with other contents for every call"""
+        loss, precoders, filters, powers, …) is refilled in place with other contents for every call.  `flavour`
+        1 / 2: integer / real element type (what the code converts — and could remember converted — before use).
+        Every session contains a step in which the object is left exactly as it is and ONLY the arguments of the
+        calc_* calls get new contents, with nothing else called in between (a memo of the last call keyed on the
+        identity of its arguments would be flushed by any other call)."""
         rng = self.rng
-        sess = self.session(n_steps=1, ext=ext)
+        sess = self.session(n_steps=1, ext=ext, kind='rint' if flavour else None)
         first = sess['steps'][0]
         first['ops']['real'] = 'init'
+        first['ops']['order'] = ['sol', 'ic', 'jp']
+        first['ops']['no_sol2'] = True
+        if flavour:
+            first['case']['dtype'] = 'int' if flavour == 1 else 'float'
         if first['case']['big'] is None:
             first['case']['big'] = self.case(kind=sess['kind'], ext=sess['ext'], K=first['case']['K'],
                                              dims=(first['case']['Nr'], first['case']['Nt'], first['case']['Ns']),
                                              NtE=first['case']['NtE'])['big']
         prev = first['case']
         first_mode = rng.below(3)
-        for i in range(rng.randint(2, 3)):
+        for i in range(3):
             c = self.case(kind=sess['kind'], ext=sess['ext'], solver_ok=True, K=prev['K'],
                           dims=(prev['Nr'], prev['Nt'], prev['Ns']), NtE=prev['NtE'])
             c['dtype'] = prev['dtype']
@@ -2551,14 +2561,18 @@ class Gen:
                 c[f] = prev[f]
             if sol == 'P' and (prev['P'] is None or c['P'] is None):
                 sol = 'sync'        # everything handed over again (precoders and filters with the contents they had)
-            order = ['ic', 'jp', 'sol']
+            if sol == 'P':
+                c['ptype'] = 'float'    # a double precision array: what the P setter could keep as it is
+            order = ['ic', 'jp']
             rng.shuffle(order)
+            if mode != 'args-only':     # the solver (it asks the channel object) first, then the calc_* calls
+                order = ['sol'] + order
             qpool = ['calc_SINR', 'calc_JP_SINR', 'calc_Q', 'calc_JP_Q']
             sess['steps'].append({'case': c, 'ops': {
                 'real': real, 'seed': 0, 'pl': pl, 'noise': noise, 'post': mode != 'args-only' and rng.chance(0.5),
-                'sol': sol, 'order': order, 'layout': 'same', 'reject': [], 'mode': mode,
-                'query': [rng.choice(qpool) for _ in range(rng.choice([0, 1, 2]))],
-                'setter_order': ['pl', 'noise', 'post'], 'derive': None, 'repeat': rng.chance(0.5), 'sol2': rng.chance(0.3)}})
+                'sol': sol, 'order': order, 'layout': 'same', 'reject': [], 'mode': mode, 'no_sol2': True,
+                'query': [] if mode == 'args-only' else [rng.choice(qpool) for _ in range(rng.choice([0, 1, 2]))],
+                'setter_order': ['pl', 'noise', 'post'], 'derive': None, 'repeat': rng.chance(0.5), 'sol2': False}})
             prev = c
         sess['buffers'] = True
         return sess
@@ -2590,7 +2604,7 @@ class Gen:
         c['shared_user_array'] = bool(shared)
         return c
 
-    def session(self, n_steps=None, ext=None):
+    def session(self, n_steps=None, ext=None, kind=None):
         """the life of one channel object (+ one solver): 2..6 scenarios reached from one another through
         the public API — new realisation (init_from_channel_matrix / randomize, same layout, new antenna
         numbers, new number of users) with the path loss kept / changed / removed, new noise variance (any
@@ -2598,7 +2612,7 @@ class Gen:
         rng = self.rng
         ext = rng.chance(0.5) if ext is None else ext
         n_steps = n_steps or rng.randint(2, 6)
-        kind = rng.choice(['gauss', 'gauss', 'gint', 'wide', 'rint'])
+        kind = kind or rng.choice(['gauss', 'gauss', 'gint', 'wide', 'rint'])
         first = self.case(kind=kind, ext=ext, solver_ok=True)
         dtype = first['dtype']
 
@@ -3306,7 +3320,7 @@ def check(ctx):
         if i % 3 == 2:
             sess['buffers'] = True
     gs = Gen(ctx.rng.fork('r15r16'), ctx.tier)
-    sessions += [gs.buffer_session(ext=bool(i % 2)) for i in range(12 if quick else 80)]
+    sessions += [gs.buffer_session(ext=bool(i % 2), flavour=(i // 2) % 3) for i in range(12 if quick else 80)]
     # R15: one object taken through close-but-distinct values of ONE parameter
     for rep in range(1 if quick else 6):
         for param, closeness in R15_KINDS:
@@ -3314,7 +3328,7 @@ def check(ctx):
             # set_precoders(F=…) without a power vector)
             for scalar_P in ((False, True) if param in ('F', 'P') else (bool(rep % 2),)):
                 sessions.append(gs.r15_session(param, closeness, n_steps=3 if quick else gs.rng.randint(3, 4),
-                                               scalar_P=scalar_P))
+                                               scalar_P=scalar_P, deep=(rep % 3 != 1)))
     roles = [gs.roles_case() for _ in range(12 if quick else 120)]
     try:
         correspondence(ctx, cases)
@@ -3334,7 +3348,7 @@ def search(ctx):
     before = len(ctx.failures)
     g = Gen(ctx.rng.fork('search'), ctx.tier)
     for _ in range(4):
-        sessions = gen_sessions(ctx, 100) + [g.buffer_session() for _ in range(30)] + \
+        sessions = gen_sessions(ctx, 100) + [g.buffer_session(flavour=i_ % 3) for i_ in range(30)] + \
             [g.r15_session(p_, c_, scalar_P=g.rng.chance(0.5)) for p_, c_ in R15_KINDS]
         oracles(ctx, gen_cases(ctx, 400), sessions, roles=[g.roles_case() for _ in range(40)])
         if len(ctx.failures) > before:
